@@ -549,6 +549,35 @@ C18_SERVER_PART = server_part(
               "observed); non-trivial = the real channel yielded a request whose context is Sampled")
 
 
+# C02, server half: wake-driven runs of the real server (harness/src/srvw.rs, coq/ServerWake.v)
+C02_SERVER_PART = {
+    "name": "server-wake",
+    "harness": "srvw",
+    "gen_args": [],
+    "cases_header": HDR.format(mods="Transport TimerWheel Server ServerWake Checks.C02server"),
+    "case_term": lambda c: f"({c['cfg']}, {c['ops']}, {c['obs']})",
+    "quick": {"count": 400},
+    "thorough": {"count": 12000},
+    "sweeps": [[]],
+    "nontrivial": _tags("settle-resp-written", "handler-aborted", "buffered-after-wait", "settle-throttle"),
+    "rule": "wake-driven server scripts: tasks = the real Requests stream and one real execute() future per yielded "
+            "request; a task is polled ONLY after its own real waker fired (per-task flag wakers); ops {R request, X "
+            "cancel, E eof, r/f sink answers, F<m> one-shot fault, D drain, G<k> handler k may proceed (wakes the waker "
+            "the scripted handler registered), Q<k> drop execute future, Z drop channel, A advance clock (tokio's time "
+            "driver fires the DelayQueue), S settle = poll woken tasks until none is woken}; never forced: response "
+            "queue, response permits, server-side cancel queue, timers, AbortHandle::abort, closed receiver, the "
+            "scripted transport's registered wakers; forced: arming a fault and a yield wake the stream task; the model "
+            "polls EVERY live task round after round until nothing changes and is compared event by event (writes, "
+            "reads, yields, handler completions/drops, execute() ends, stream result, gauges) inside Coq; cfg as the "
+            "server scripts; 8..60 ops, generated while running the real code; thorough adds every 4-event sequence "
+            "from a 9-event alphabet over 3 configurations (19 683 scripts); non-trivial = a settle in which the real "
+            "stream wrote a response or a throttle reply, or a handler was aborted, or a sender that had waited for "
+            "a place in the response queue got it",
+    "max_shrinks": 3,
+    "shrink_budget": 24,
+}
+
+
 def _server_spec(pid, parts, level_text, level_note, assumptions):
     chks = []
     for p in parts:
@@ -593,6 +622,10 @@ CLIENT_TB = [
     "virtual time: the harness interposes clock_gettime (harness/src/vclock.rs) and advances "
     "tokio's paused clock by the same amount",
     "verification hooks under --cfg tarpc_verif: read-only gauges, yield points in ResponseGuard::drop",
+    "expiry order among simultaneously due timers is DelayQueue-internal (slot stacks, cascades); the client model uses "
+    "a canonical order; the driver detects the dispatch polls in which that order is observable (an expiry with >= 2 "
+    "due requests followed, in the same poll, by a response for one of them) and compares such a script only up to "
+    "that poll (tag truncated:timer-order-observable in the evidence histogram)",
 ]
 CLIENT_RULE = ("scripts over ops {clone/drop handle, call(deadline,trace,body), poll call, drop call "
                "(atomic or split close/cancel via the yield hook), poll dispatch, drop dispatch, advance clock, "
